@@ -43,6 +43,19 @@ def edit_campaign(ctx, reports=0.0, analyses=None, sim=True, graph=True, mc=True
             _mc(ctx, res, "MCEdit3.cfg", "MCEdit 3 names, rails {'',r,b}")
             _mc(ctx, res, "MCEditP.cfg", "MCEdit 2 names, groups/payloads/phases")
             _mc(ctx, res, "MCEdit4.cfg", "MCEdit 4 names", timeout=6000)
+    if mc:
+        # the implementation-grain model (node slots, registries, raw parent references; spec/SysImpl.tla) refines SysTree
+        for cfg, name, to in ([("MCImpl.cfg", "SysImpl refines SysTree: 3 names, rails {'',b}", 1500)] +
+                              ([] if q else [("MCImpl4.cfg", "SysImpl refines SysTree: 4 names, reference lists up to 3", 7200)])):
+            m = tlc.run_mc("MCImpl.tla", cfg, ctx.work, timeout=to, workers=8)
+            m["name"] = name
+            res.mc.append(m)
+            if not m["ok"]:
+                if re.search(r"(Invariant \w+ is violated|refinement of SysTree violated)", m["out"]):
+                    k = m["out"].find("Error:")
+                    res.mc_failures.append("%s\n%s" % (cfg, m["out"][k:k + 6000]))
+                else:
+                    raise tlc.TLCError("model checking of %s failed:\n%s" % (cfg, m["out"][-3000:]))
     rec = Recorder(reports=reports, rng=ctx.rng)
     rec.install()
     try:
